@@ -76,14 +76,19 @@ func (k *kindDef) decCtx(g *pk.Gen, body []byte, ctx sx.T, mk func() tds.Package
 		if p.Class == 0 {
 			fields = k.render(p.Pkg)
 		}
-		g.Out.Case(2, sx.L{sx.I(int64(k.tok)), sx.B(body), ctx, expected}, sx.L{sx.I(p.Class), sx.I(int64(p.Consumed)), fields}, tag)
+		g.Out.Case(2, sx.L{sx.I(int64(k.tok)), sx.B(body), ctx, expected, pk.ClaimT(tag)}, sx.L{sx.I(p.Class), sx.I(int64(p.Consumed)), fields}, tag)
 	}
 	if g.Want[3] && len(body) <= maxPrefixBody {
 		cls := sx.L{}
 		for n := 0; n < len(body); n++ {
 			cls = append(cls, sx.I(k.parse(body[:n], mk).Class))
 		}
-		g.Out.Case(3, sx.L{sx.I(int64(k.tok)), sx.B(body), ctx}, cls, tag)
+		full := k.parse(body, mk)
+		valid := int64(0)
+		if full.Class == 0 && full.Consumed == len(body) {
+			valid = 1
+		}
+		g.Out.Case(3, sx.L{sx.I(int64(k.tok)), sx.B(body), ctx, sx.I(valid)}, cls, tag)
 	}
 }
 
